@@ -19,6 +19,10 @@ import (
 // functions exist only here: `same` returns its argument slice as is, `keep` stores it; kept
 // slices are re-read at the end. The package-level marker lists must print the same before
 // and after.
+// Config-less parses (40% of the plain-mode cases, function-free paths only): the path is parsed without a
+// Config, called on a copy of the base document, the copy is edited inside (root object and root length
+// stay: c05EditKeepLen) and the function is called again, 1..3 rounds; every answer must be what a fresh
+// config-less Retrieve answers for the document as it is now (tag plain-inplace).
 // Keys renamed in place (35% of the cases, all of class scale): the reused function is called on the
 // first document of the history, then 1..2 keys of some of its maps are renamed IN PLACE (same map
 // objects, same sizes, c07RenameInPlace), and it is called again: the answer must be what a fresh
@@ -401,6 +405,17 @@ func (c05) Exec(seed int64, i int, tier string) Record {
 				rec.Class = "history-inplace"
 				return rec
 			}
+		}
+	}
+
+	// the same for a function parsed WITHOUT a Config (function-free paths): the caller edits the document
+	// inside (the root object stays, and keeps its length) between two calls of the reused function.
+	if !acc && r.Chance(40) {
+		if viol, tags := c05PlainInPlace(r, text, doc0); viol != "" {
+			rec.Viol, rec.Class = viol, "history-inplace"
+			return rec
+		} else {
+			rec.Tags = append(rec.Tags, tags...)
 		}
 	}
 
